@@ -107,6 +107,17 @@ func main() {
 		runHistory(nil, sc.Seed, sc.Module, rep, &items, &sc)
 		rep.Count("scripted-history")
 	}
+	// scripted: an expedited proposal misses its threshold, is converted to a regular one by the end blocker and is
+	// cancelled by its proposer in the following block (queue bookkeeping of the conversion); and the same with a
+	// second expedited proposal that simply runs to its regular end
+	for k, blocks := range [][][]op{
+		{{{Kind: "gov_proposal", A: 10}}, {}, {{Kind: "gov_cancel", B: 0}}, {}, {}, {}, {}},
+		{{{Kind: "gov_proposal", A: 10}, {Kind: "gov_proposal", A: 20}}, {}, {}, {{Kind: "gov_cancel", B: 1}}, {}, {}, {}, {}},
+	} {
+		sc := history{Seed: 434343 + int64(k), Module: "bsc", Stakes: []int64{20000, 30000}, Window: 3, GovQuorum: "0.4", Blocks: blocks}
+		runHistory(nil, sc.Seed, sc.Module, rep, &items, &sc)
+		rep.Count("scripted-history")
+	}
 	for i := 0; i < nHist; i++ {
 		h := runHistory(r, seed*1000+int64(i), lib.ChainModules[(i+int(seed))%len(lib.ChainModules)], rep, &items, nil)
 		rep.Sample(map[string]interface{}{"module": h.Module, "stakes_fx": h.Stakes, "window": h.Window, "blocks": len(h.Blocks), "first_blocks": firstN(h.Blocks, 6)})
